@@ -99,6 +99,15 @@ def run(tier, seed):
         v = C.rename_scheme(u, DOTTED[:len(u["nodes"])]) if j % 5 == 1 else (C.rename_scheme(u, NUMERIC[:len(u["nodes"])]) if j % 5 == 3 else u)
         for cls in C.CYC_K + C.CYC_MIN:
             insts += variants(v, cls, rng, True, nx)
+        # cyclic flow decomposition with GIVEN walk weights, one of which no walk can use: that layer stays empty and must
+        # not come back as a route (allow_empty_walks)
+        if u["pweights"]:
+            for gw in (list(u["pweights"]) + [max(u["ew"]) + 1], [max(u["ew"]) + 1] + list(u["pweights"])):
+                r = C.base(v, "kFlowDecompCycles")
+                r["wt"] = "int"
+                r["k"] = len(gw)
+                r["opt"] = {"given_weights": gw, "allow_empty_walks": True, "optimize_with_safe_sequences": False}
+                insts.append(r)
     C.with_ids(insts)
     recs = P.drive(insts)
     res.evaluations = len(recs)
